@@ -165,6 +165,40 @@ def _scaling_case(kind):
     return h
 
 
+def _repeated_compound_case(kind):
+    """the same compound listed twice with two different densities (e.g. two phases), plus a third material"""
+    def h(E):
+        from periodictable import formulas
+        T, _, _ = cm.sym_pool(E, 'c11', ['X', 'Y', 'Z'], neutron=False, natural=True, density=True)
+        P = cm.pool(T)
+        X, Y, Z = P['X'], P['Y'], P['Z']
+        c1, c2, c3 = [E.real(n, lo=0, lo_open=True, hi=1000) for n in ('c1', 'c2', 'c3')]
+        r1, r2, r3 = [E.real(n, lo=0, lo_open=True, hi=25) for n in ('rho1', 'rho2', 'rho3')]
+        q1, q2, q3 = [E.real(n, lo=0, lo_open=True, hi=1000) for n in ('q1', 'q2', 'q3')]
+        fa = formulas.formula([(c1, X), (c2, Y)], density=r1)
+        fb = formulas.formula([(c1, X), (c2, Y)], density=r2)
+        fc = formulas.formula([(c3, Z)], density=r3)
+        fn = formulas.mix_by_weight if kind == 'weight' else formulas.mix_by_volume
+        r = fn(fa, q1, fb, q2, fc, q3)
+        M1 = c1 * oracle_mass(X) + c2 * oracle_mass(Y)
+        mZ = oracle_mass(Z)
+        if kind == 'weight':
+            m12, m3 = q1 + q2, q3
+            vol = q1 / r1 + q2 / r2 + q3 / r3
+        else:
+            m12, m3 = q1 * r1 + q2 * r2, q3 * r3
+            vol = q1 + q2 + q3
+        got = r.atoms
+        E.fact('repeated.atom_set', set(got) == {X, Y, Z})
+        if set(got) == {X, Y, Z}:
+            E.eq('repeated.mass_ratio', got[X] * M1 * m3, c1 * m12 * got[Z] * mZ)
+            E.eq('repeated.stoichiometry', got[X] * c2, got[Y] * c1)
+            E.fact('repeated.density_known', r.density is not None)
+            if r.density is not None:
+                E.eq('repeated.density', r.density * vol, m12 + m3)
+    return h
+
+
 def _nested_api_case(E):
     """a component that is itself a mixture"""
     from periodictable import formulas
@@ -427,6 +461,8 @@ def cases(tier):
     out.append(Case('scaling[weight]', _scaling_case('weight'), max_paths=mp, timeout_ms=to))
     out.append(Case('scaling[volume]', _scaling_case('volume'), max_paths=mp, timeout_ms=to))
     out.append(Case('nested_api', _nested_api_case, max_paths=mp, timeout_ms=to))
+    out.append(Case('repeated_compound[weight]', _repeated_compound_case('weight'), max_paths=mp, timeout_ms=to))
+    out.append(Case('repeated_compound[volume]', _repeated_compound_case('volume'), max_paths=mp, timeout_ms=to))
     pct = [('weight', 'wt%', '%', 3, [True, 'element', True]), ('weight', '%wt', 'wt%', 2, [False, True]),
            ('weight', 'mass%', '%', 2, [True, True]), ('weight', ' weight %', '%', 2, ['element', False]),
            ('volume', 'vol%', '%', 3, [True, 'element', True]), ('volume', '%vol', 'vol%', 2, ['element', True]),
